@@ -46,7 +46,7 @@ CLAUSES = [
       "SCoda.WrapTie.messagesAbs_eq", "SCoda.WrapTie.messagesRel_eq", "SCoda.WrapTie.quantise_eq", "SCoda.WrapTie.quantiseNoteLengths_eq",
       "SCoda.WrapTie.quantiseAndNormalise_eq", "SCoda.WrapTie.scale_eq", "SCoda.WrapTie.transpose_eq", "SCoda.WrapTie.split_eq",
       "SCoda.WrapTie.concatenate_eq", "SCoda.WrapTie.merge_eq", "SCoda.WrapTie.getSequenceDuration_eq", "SCoda.WrapTie.isEmpty_eq",
-      "SCoda.WrapTie.translated_covered", "SCoda.WrapTie.equals_eq", "SCoda.WrapTie.defaults_pinned", "SCoda.WrapTie.message_type_order",
+      "SCoda.WrapTie.translated_covered", "SCoda.WrapTie.equals_eq", "SCoda.WrapTie.isChannelConsistent_eq", "SCoda.WrapTie.getSequenceChannel_eq", "SCoda.WrapTie.defaults_pinned", "SCoda.WrapTie.message_type_order",
       "SCoda.ViewTie.view_defaults_pinned", "SCoda.C04d.genExec_eq", "SCoda.C04d.genRun_eq", "SCoda.C04d.history_inv_gen", "SCoda.C04d.history_readable_gen"]),
     ("TIE BY TRANSLATION, view level: the methods of RelativeSequence / AbsoluteSequence / MidiTrack that the wrapper calls and that have no dict-of-dict state are "
      "re-translated statement by statement on every run (Gen/ViewFns.lean, tools/py2lean.py: for/while/break/continue, in-place edits, binary_insort's bisection with "
